@@ -74,6 +74,17 @@ fn bytes_of<T>(_t: &T) -> Vec<u8> { Vec::new() }
 fn check<T>(t: &T, _c: &[u8]) { let _ = t; }
 '''
 
+LONG_CONSTS = (
+    'const KLONG: &str = "' + "k" * 300 + '";\n'
+    'const NLONG: &str = "' + "sub-bucket-name-" + "n" * 284 + '";\n'
+    'const VLONG: &str = "' + "value-of-k-" + "v" * 2989 + '";\n'
+)
+
+def longify(src):
+    """The same program over long keys / names / values (textual substitution of the literals)."""
+    out = src.replace('"sub-bucket-name-0123456789"', "NLONG").replace('"value-of-k-0123456789"', "VLONG").replace('"k"', "KLONG")
+    return out.replace("use jammdb::*;\n", "use jammdb::*;\n" + LONG_CONSTS, 1)
+
 B = 'let b = tx.get_bucket("b").unwrap(); '
 
 def route_program(route, pre, expr, keep):
@@ -654,6 +665,32 @@ def judge_escape(prog, work, rlib, deps):
             rcr, tail = "timeout", ""
         res["src"] = src
         if rcr == 0:
+            # the same program with a 300-byte key, a 300-byte bucket name and a multi-page value:
+            # sizes above any inline / small-copy threshold must behave the same
+            lsrc = longify(src)
+            lp = os.path.join(d, "pl.rs")
+            open(lp, "w").write(lsrc)
+            lbin = os.path.join(d, "pl.bin")
+            rc3, errs3 = rustc(lp, lbin, rlib, deps, False)
+            if rc3 == 0:
+                try:
+                    p = subprocess.run([lbin], cwd=d, capture_output=True, text=True, timeout=120)
+                    rcl, tail = p.returncode, (p.stderr or "")[-300:]
+                except subprocess.TimeoutExpired:
+                    rcl, tail = "timeout", ""
+                if rcl not in (0, "timeout"):
+                    res["src"] = lsrc
+                    if rcl == 77:
+                        res["verdict"] = "compiled_hung"
+                        res["detail"] = "long-key variant: a new write transaction could not start within 20 s"
+                    else:
+                        res["verdict"] = "compiled_faulted"
+                        res["detail"] = f"long-key variant (300-byte key and bucket name, 3000-byte value): exit {rcl}: {tail}"
+                    shutil.rmtree(d, ignore_errors=True)
+                    return res
+                res["long_variant"] = "ran" if rcl == 0 else "timeout"
+            else:
+                res["long_variant"] = "did not compile: " + "; ".join(m for _, m in errs3)[:200]
             res["verdict"] = "compiled_ran_unharmed"
         elif rcr == 77:
             res["verdict"] = "compiled_hung"
